@@ -262,7 +262,7 @@ func headerString(f *Func) string {
 		fmt.Fprintf(buf, " partition %s", quote(f.Partition))
 	}
 	if f.Comdat != nil {
-		if f.Comdat.Name == f.Name() {
+		if f.Comdat.Name == f.GlobalName {
 			buf.WriteString(" comdat")
 		} else {
 			fmt.Fprintf(buf, " %s", f.Comdat)
